@@ -289,6 +289,8 @@ listed property fixes count() of a sequence that repeats nodes (C12 speaks of
 child/attribute/self paths and a single `//name`; C13's identities are about
 node SETS and truth values). That was a **false alarm of the new variant,
 caught before commit**: P now enters through `number(boolean((P)))`.
+The strengthened C13 was re-run against the 9 behaviour-preserving patches
+that touch query.go / xpath.go (§11.7): no alarm (benign/RESULTS.txt, last block).
 Two side remarks of a round-8 sub-agent were **genuine defects of the pinned
 tree** that the strengthened C02/C07 checks then reproduced (a merged step left
 the cursor moved; a filtered descendant step skipped nested matches); both are
